@@ -276,6 +276,40 @@ def rule_H3(ctx, sm):
                                   'recursion relies on can change under it',
                                   ctx.where(sm, n))
     ctx.floor('C05.H3.writers', 5)
+    # the direction cycles are per-solve state: every store of sc_cycle /
+    # lr_cycle is False or an `itertools.cycle(..)` made right there (an
+    # iterator handed out by a memoised helper, a module-level table or a
+    # default argument is shared between solves and between the two
+    # settings, and continues where the last one stopped)
+    n_c = 0
+    for n in ast.walk(sm.tree):
+        if not isinstance(n, ast.Assign):
+            continue
+        for ti, t in enumerate(n.targets[0].elts if isinstance(
+                n.targets[0], ast.Tuple) else n.targets):
+            if not (isinstance(t, ast.Attribute) and t.attr in (
+                    'sc_cycle', 'lr_cycle')):
+                continue
+            n_c += 1
+            fn_ = au.enclosing_func(n)
+            v = n.value
+            if isinstance(n.targets[0], ast.Tuple):
+                v = v.elts[ti] if isinstance(v, ast.Tuple) and len(
+                    v.elts) == len(n.targets[0].elts) else ast.Subscript(
+                        v, ast.Constant(ti), ast.Load())
+            vals = au.values_of(v, [fn_]) if fn_ is not None else [v]
+            ok = all((isinstance(x, ast.Constant) and x.value in (
+                False, None)) or (isinstance(x, ast.Call) and ast.unparse(
+                    x.func) == 'itertools.cycle') for x in vals)
+            ctx.check('C05.H3.writers', f'{au.qualname(n)} `{au.stext(n)}`',
+                      ok, f'`{t.attr}` is bound to '
+                      f'`{ast.unparse(vals[0])[:60]}`, not to a new '
+                      'itertools.cycle(..): a remembered / shared iterator '
+                      'continues where an earlier solve (or the other '
+                      'setting) left it, so the directions do not start at '
+                      'the first digit and do not advance once per cycle',
+                      ctx.where(sm, n))
+    ctx.need(n_c >= 5, f'only {n_c} stores of sc_cycle / lr_cycle found')
 
 
 def rule_H4_H5(ctx, sm):
